@@ -113,19 +113,36 @@ func c16Payloads(maxLen int) []string {
 
 // c16Read feeds the chunks and reads one line through the real recvLine.
 func c16Read(mode string, typ string, chunks [][]byte) ([]byte, error) {
+	if mode != "win" {
+		// junk tolerance is switched on in two ways: by the negotiated configuration (every line after the
+		// handshake: the caller passes false) and by the caller (the handshake lines); both must recover the line
+		got, err := c16ReadWith(mode, typ, chunks, true, false)
+		if err != nil {
+			return got, err
+		}
+		got2, err2 := c16ReadWith(mode, typ, chunks, false, true)
+		if err2 != nil || !bytes.Equal(got, got2) {
+			return got2, err2
+		}
+		return got, nil
+	}
+	return c16ReadWith(mode, typ, chunks, false, false)
+}
+
+func c16ReadWith(mode string, typ string, chunks [][]byte, configJunk, callerJunk bool) ([]byte, error) {
 	t := newTransfer(nopWriteCloser{&bytes.Buffer{}}, nil, false, nil)
 	if mode == "win" {
 		t.windowsProtocol = true
 		t.transferConfig.Newline = "!\n"
 	} else {
-		t.transferConfig.TmuxOutputJunk = true
+		t.transferConfig.TmuxOutputJunk = configJunk
 	}
 	for _, c := range chunks {
 		t.buffer.addBuffer(c)
 	}
 	fired := make(chan time.Time, 1)
 	fired <- time.Time{}
-	return t.recvLine(typ, mode == "tmux", fired)
+	return t.recvLine(typ, callerJunk, fired)
 }
 
 func c16Run(j vs.Job) *vs.JobResult {
